@@ -87,7 +87,39 @@ class FastRandom(secrets.SystemRandom):
         return v & ((1 << k) - 1)
 
 
+class ScriptedRS2(np.random.RandomState):
+    """RandomState whose standard_normal / gamma are scripted: drives the `except AttributeError` (seeded) branches of
+    Gaussian.randomise and Vector.randomise.  gamma(shape, scale, size) returns unit gammas × scale, like numpy does."""
+
+    def __init__(self, normals=(), gammas=()):
+        super().__init__(0)
+        self.normals = list(normals)
+        self.gammas = list(gammas)
+        self.n_normal = 0
+        self.n_gamma = 0
+        self.log = []
+
+    def standard_normal(self, size=None):
+        k = 1 if size is None else int(np.prod(size))
+        if self.n_normal + k > len(self.normals):
+            raise seams.ScriptExhausted("normal script exhausted")
+        v = self.normals[self.n_normal:self.n_normal + k]
+        self.n_normal += k
+        return v[0] if size is None else np.array(v, dtype=float).reshape(size)
+
+    def gamma(self, shape, scale=1.0, size=None):
+        k = 1 if size is None else int(np.prod(size))
+        if self.n_gamma + k > len(self.gammas):
+            raise seams.ScriptExhausted("gamma script exhausted")
+        v = [g * scale for g in self.gammas[self.n_gamma:self.n_gamma + k]]
+        self.n_gamma += k
+        self.log += [("gammavariate", shape, scale)] * k
+        return v[0] if size is None else np.array(v, dtype=float).reshape(size)
+
+
 def make_rng(kind, script):
+    if script.get("rs"):
+        return ScriptedRS2(normals=script.get("normals", ()), gammas=script.get("gammas", ()))
     if kind == "stair":
         return seams.ScriptedRandomState(uniforms=script.get("u", ()), geometrics=script.get("geom", ()))
     return seams.ScriptedSystemRandom(uniforms=script.get("u", ()), bits=script.get("bits", ()),
@@ -335,6 +367,8 @@ def stat_cases(r):
     cases.append(("vec", {"eps": r.loguniform(0.3, 5.0), "fs": 0.0, "ds": r.loguniform(0.3, 3), "d": d,
                           "alpha": 1.0, "n": 1}))
     cases.append(("vec", {"eps": r.loguniform(0.3, 5.0), "fs": 0.0, "ds": 1.0, "d": 2, "alpha": 1.0, "n": 1}))
+    cases.append(("vec", {"eps": r.loguniform(0.3, 5.0), "fs": 0.0, "ds": 1.0, "d": r.randint(2, 5), "alpha": 1.0, "n": 1, "rs": True}))
+    cases.append(("gauss", {"eps": r.uniform(0.1, 1.0), "delta": r.loguniform(1e-6, 0.1), "sens": 1.0, "rs": True}))
     cases.append(("snapu", {}))
     cases.append(("snap", {"eps": r.loguniform(0.3, 4.0), "sens": 1.0, "lo": -40.0, "hi": 40.0}))
     cases.append(("bingham", {"eps": r.loguniform(0.5, 6.0), "sens": 1.0, "l1": r.uniform(1.0, 3.0),
@@ -372,8 +406,8 @@ def stat_test(name, p, seed, n):
         k = int(np.sum(ang >= 0))
         res.append(("bingham-2d:antipodal", abs(k / n - 0.5), thr, n))
         return res
-    if name == "stair":
-        rng = np.random.RandomState(seed % (2 ** 32))
+    if name == "stair" or p.get("rs"):
+        rng = np.random.RandomState(seed % (2 ** 32))     # seeded path: numpy's own standard_normal / gamma / geometric
     else:
         rng = FastRandom(seed)
     if name == "snapu":
@@ -544,9 +578,11 @@ def gen_case(kind, r):
         p = {"eps": r.choice([1.0, r.loguniform(1e-3, 1.0)]), "delta": r.choice([r.loguniform(1e-9, 1e-2), r.uniform(0.01, 0.9)]),
              "sens": sens}
         script["normals"] = [r.normal(), r.normal()]
+        script["rs"] = r.chance(0.4)
     elif kind == "gaussA":
         p = {"eps": r.loguniform(1e-2, 10.0), "delta": r.choice([r.loguniform(1e-9, 1e-2), r.uniform(0.01, 0.9)]), "sens": sens}
         script["normals"] = [r.normal(), r.normal()]
+        script["rs"] = r.chance(0.4)
     elif kind == "dgauss":
         p = {"eps": r.loguniform(0.05, 5.0), "delta": r.loguniform(1e-8, 0.3), "sens": r.choice([1, 1, 2, 3, 5])}
         xs = [0, r.randint(-1000, 1000), r.randint(-10, 10)]
@@ -570,6 +606,7 @@ def gen_case(kind, r):
         script["normals"] = [r.normal() for _ in range(4 * d)]
         a = d / 4.0
         script["gammas"] = [max(1e-300, -math.log(1 - r.u01()) * a * r.uniform(0.2, 2.0)) for _ in range(4)]
+        script["rs"] = r.chance(0.4)
     elif kind == "snap":
         lo = r.choice([0.0, r.uniform(-10, 10)])
         w = r.choice([1.0, r.loguniform(1e-1, 1e3)])
@@ -827,7 +864,7 @@ def compare_case(ctx, case, info, outs):
     runs = info["runs"]
 
     def dis(what, model, impl, x=None):
-        ctx.disagree("sampler." + kind, {"params": p, "x": x, "script": {k: v[:12] for k, v in sc.items()}}, model, impl, what)
+        ctx.disagree("sampler." + kind, {"params": p, "x": x, "script": {k: (v[:12] if isinstance(v, list) else v) for k, v in sc.items()}}, model, impl, what)
         return False
 
     def words(line):
@@ -1168,7 +1205,7 @@ def check(ctx):
     for case, info in zip(cases[::per_kind], infos[::per_kind]):
         rr = next((x for x in info["runs"] if x is not None), None)
         ctx.sample({"kind": case["kind"], "params": case["params"], "x": case["xs"][0],
-                    "stream_head": {k: v[:4] for k, v in case["script"].items()},
+                    "stream_head": {k: (v[:4] if isinstance(v, list) else v) for k, v in case["script"].items()},
                     "released": None if rr is None else (rr[0] if case["kind"] != "vec" else rr[0][0].tolist()),
                     "draws": None if rr is None else rr[1]}, cap=len(KINDS))
     outs = leanio.run_driver("Samplers", all_lines) if all_lines else []
